@@ -4,6 +4,7 @@ import TsVerif.C02.BalanceProps
 import TsVerif.C02.BalanceSumm
 import TsVerif.C02.WidthProps
 import TsVerif.C02.LexYields
+import TsVerif.C02.ModelDriver
 #print axioms TsVerif.C02.summarize_padding_size
 #print axioms TsVerif.C02.spans_nested
 #print axioms TsVerif.C02.siblings_ordered
@@ -54,3 +55,9 @@ import TsVerif.C02.LexYields
 #print axioms TsVerif.C02.length_sub_measure
 #print axioms TsVerif.C02.token_measures
 #print axioms TsVerif.C02.lexed_leaf_yields
+#print axioms TsVerif.C02.ModelDriver.pushReduced_leaves
+#print axioms TsVerif.C02.ModelDriver.step_leaves
+#print axioms TsVerif.C02.ModelDriver.run_leaves
+#print axioms TsVerif.C02.ModelDriver.model_tree_tiles
+#print axioms TsVerif.C02.ModelDriver.model_halts
+#print axioms TsVerif.C02.ModelDriver.model_parse_halted
